@@ -109,6 +109,10 @@ pub fn build_workload(tapes: &mut Tapes, bias_fold_count: bool) -> Result<Worklo
     build_workload_biased(tapes, bias_fold_count, false)
 }
 
+pub fn wants_tag_bias(prop: &str) -> bool {
+    matches!(prop, "C01" | "C04" | "C05" | "C09" | "C21" | "C22" | "C02")
+}
+
 pub fn build_workload_biased(
     tapes: &mut Tapes,
     bias_fold_count: bool,
